@@ -140,7 +140,11 @@ class Gen:
                 op = rng.choice(["//", "%"])
                 return ("bin", op, self.expr(INT, scopes, depth - 1), self.divisor(scopes, depth - 1), INT)
             if k < 0.56:
-                return ("bin", "**", self.expr(INT, scopes, depth - 1), ("lit", NAT, rng.choice([0, 1, 2, 3])), INT)
+                # `Int ** Nat` is DECLARED to return Nat (examples rely on x**2: Nat), so a negative base with an odd exponent
+                # is a listed finding (ValueError from the Nat wrapper); the main workload keeps the result non-negative
+                ex = rng.choice([0, 1, 2, 3])
+                base = self.expr(INT if ex % 2 == 0 else NAT, scopes, depth - 1)
+                return ("bin", "**", base, ("lit", NAT, ex), NAT)
             if k < 0.62:
                 return ("un", "-", self.expr(INT, scopes, depth - 1), INT)
             if k < 0.74:
